@@ -404,6 +404,16 @@ func runC20(c *Ctx) {
 					if call, ok := stripConv(x).(*ssa.Call); ok && isCallToFn(call, cm("Size")) {
 						okG = true
 					}
+					// the sequencer's own Size(), which forwards to the container's
+					if call, ok := stripConv(x).(*ssa.Call); ok && isCallToFn(call, sm("Size")) {
+						fwd := false
+						for _, r := range returnsOf(sm("Size")) {
+							if fc, ok := stripConv(r.Results[0]).(*ssa.Call); ok && isCallToFn(fc, cm("Size")) {
+								fwd = true
+							}
+						}
+						okG = okG || fwd
+					}
 				}
 			}
 			c.check(okG, pop, "offsetter reset", rc.Pos(), "offsets are forgotten only when no slot is parked", "the offsetter is reset while slots are still parked: their indices are no longer translated and address the wrong bytes")
